@@ -87,6 +87,12 @@ EvReorgStep == Consume /\ Ev.ev = "ReorgStep" /\ ReorgDetaches = Ev.det
 EvSwitchTo == Consume /\ Ev.ev = "SwitchTo" /\ SwitchTo(Ev.b) /\ UNCHANGED followerVars /\ KeepT
 EvAnnounce == Consume /\ Ev.ev = "Announce" /\ Announce(Ev.t) /\ UNCHANGED followerVars /\ KeepT
 
+\* the node relays a transaction it had announced before (evicted from its pool and received again, re-broadcast
+\* by its sender): the same notification once more, nothing else changes
+EvReannounce == Consume /\ Ev.ev = "Reannounce" /\ Ev.t \in TxIds /\ up
+                /\ ntfT' = Append(ntfT, Ev.t)
+                /\ UNCHANGED <<reorg, parent, content, best, pool, ntfB, followerVars>> /\ KeepT
+
 (* --------------------------------------------------------------- the follower *)
 \* ... and the follower takes nothing off its queues while the worker is inside the window (update done, resume not yet sent)
 EvHBlock == Consume /\ Ev.ev = "h.block" /\ hst = "top" /\ ntfB # <<>> /\ wst \notin {"s1", "s2", "sF"}
@@ -249,7 +255,7 @@ EvQEnd == /\ Consume /\ Ev.ev = "q.end" /\ pre.qo
           /\ pre' = [pre EXCEPT !.qo = FALSE, !.q = {}]
           /\ UNCHANGED <<vars, hst, wst>>
 
-TraceNext == \/ EvQBegin \/ EvQEnd
+TraceNext == \/ EvQBegin \/ EvQEnd \/ EvReannounce
              \/ EvExtend \/ EvFork \/ EvForkSlow \/ EvReorgStep \/ EvSwitchTo \/ EvAnnounce
              \/ EvHBlock \/ StepBlock \/ EvHTx \/ StepTx \/ EvCommitH \/ EvRollbackH
              \/ EvHSuspended \/ EvHResumed \/ EvHTop \/ EvFaultH \/ EvFaultW \/ EvRollbackWF
